@@ -44,6 +44,8 @@ def loop_of(fx, rep, rule, key, path):
 
 
 def driver(L):
+    if L.get("driver_override") is not None:
+        return L["driver_override"]
     for n in F.walk(L["node"]["body"]):
         if F.is_call(n, "std::iter::Iterator::next"):
             v = F.strip(n["args"][0])
@@ -52,6 +54,74 @@ def driver(L):
 
 
 _FX = [None]
+
+
+def counted_window(L):
+    """`for _ in 0..N { let Some(item) = items.next() else { return false }; .. }`: at most N items of `items`, one per
+    iteration - the loop `for item in items.take(N)`, spelled with a counter. Returns a loop record in that second form (driver
+    `take(<items before the loop>, N)`; an iteration is taken iff the counter and the stream both have a next element), or None.
+    The path "counter has a next, stream has none" must answer false and do nothing else - it becomes the end of the loop."""
+    nexts = []
+    for n in F.walk(L["node"]["body"]):
+        if F.is_call(n, "std::iter::Iterator::next"):
+            v = F.strip(n["args"][0])
+            if v.get("k") in ("Var", "Upvar"):
+                nexts.append(v)
+    if len(nexts) != 2:
+        return None
+    rv, iv = nexts
+    rng = L["pre"].env.get(rv["id"])
+    items = L["pre"].env.get(iv["id"])
+    if not (isinstance(rng, tuple) and rng[0] == "adt" and rng[1] == "Range" and dict(rng[3]).get("start") == lit_int(0)
+            and dict(rng[3]).get("end", ("?",))[0] == "lit") or items is None:
+        return None
+    n_items = dict(rng[3])["end"]
+    # the counter value itself must not be used
+    base = len(L["entry"].conds)
+
+    def of(place_name, t):
+        return t[0] in ("mcall", "call") and R.is_next(t[1]) and t[2] and t[2][0][0] == "place" and t[2][0][1] == place_name
+    out = []
+    fake_in = ("mcall", "std::iter::Iterator::next", (("place", iv["name"], ()),), 0)
+    for st, (k, v) in L["paths"]:
+        rn = inn = None
+        rest = []
+        in_term = None
+        for a, pol in st.conds[base:]:
+            if a[0] == "is" and a[2] == "Some" and of(rv["name"], a[1]):
+                rn = pol
+                rn_term = a[1]
+                continue
+            if a[0] == "is" and a[2] == "Some" and of(iv["name"], a[1]):
+                inn = pol
+                in_term = a[1]
+            rest.append((a, pol))
+        st2 = st.copy()
+        effs = tuple(e for e in st.effects if not (e[0] == "call" and of(rv["name"], e)))
+        if rn is False:
+            st2.conds = st.conds[:base] + ((("is", fake_in, "Some"), False),)
+            st2.effects = effs
+            out.append((st2, (k, v)))
+        elif rn is True and inn is False:
+            other = [e for e in effs[len(L["entry"].effects):] if e[0] in ("call", "assign", "opassign") and not of(iv["name"], e)]
+            if not (k == S.RET and v == FALSE and not other):
+                return None
+            st2.conds = st.conds[:base] + tuple(rest)
+            st2.effects = effs
+            out.append((st2, (S.BRK, None)))
+        elif rn is True and inn is True:
+            # the payload of the counter must not appear anywhere
+            if any(rn_term in (x,) for x in ()):
+                return None
+            st2.conds = st.conds[:base] + tuple(rest)
+            st2.effects = effs
+            out.append((st2, (k, v)))
+        else:
+            return None
+    L2 = dict(L)
+    L2["paths"] = out
+    L2["driver_override"] = ("call", "std::iter::Iterator::take", (items, n_items))
+    return L2
 
 
 def iter_term(slf):
@@ -84,7 +154,7 @@ def norm_eff(st):
     return tuple(out)
 
 
-def check_scan(rep, rule, key, L, b, ref, what, slf_name="self", want_driver=None):
+def check_scan(rep, rule, key, L, b, ref, what, slf_name="self", want_driver=None, end_ret=None):
     base = len(L["entry"].conds)
 
     def outcome(st, out):
@@ -93,6 +163,10 @@ def check_scan(rep, rule, key, L, b, ref, what, slf_name="self", want_driver=Non
         if k == S.BRK:
             return ("end", effs)
         if k == S.RET:
+            # `None => return false` inside the loop is leaving the loop and then answering false (`end_ret`: what the function
+            # answers after the stream is exhausted)
+            if end_ret is not None and v == end_ret and fc.assignment(tuple((fc.rewrite(a_, rw), p_) for a_, p_ in st.conds[base:])).get(("is", R.NEXT, "Some")) is False:
+                return ("end", effs)
             return ("ret", fc.rewrite(v, rw), effs)
         return ("cont", effs)
     bad, n = fc.compare_paths(L["paths"], ref, outcome, rw=rw, base=base)
@@ -504,8 +578,10 @@ def run(ctx, rep):
                     return ("ret", TRUE, ())
                 return ("cont", ())
             check_scan(rep, "C19.1", "C19.1/has_line_info", L, b, ref,
-                       "return true iff the record is an Ok(Method) with a line mapping; otherwise continue (no other exit)", want_driver=iter_term(slf))
+                       "return true iff the record is an Ok(Method) with a line mapping; otherwise continue (no other exit)", want_driver=iter_term(slf), end_ret=FALSE)
             tails = [o for st, o in res if not any(e[0] == "inloop" for e in st.effects)]
+            if not any(k_ == S.BRK for st_, (k_, v_) in L["paths"]):
+                tails = [(S.VAL, FALSE)] if not [o for o in tails if o[1] not in (S.UNIT, FALSE)] else tails      # (an endless `loop` left only by `return`)
             rep.check("C19.1", "C19.1/has_line_info/after-loop", tails == [(S.VAL, FALSE)], loc=F.short_file(b["sp"]),
                       found=[S.tstr(o[1]) for o in tails], expected="false only after the complete stream was scanned")
     # ---- summary
@@ -611,6 +687,10 @@ def run(ctx, rep):
         if r:
             sy, res, L, b = r
             idx = L["index"]
+            Lc = counted_window(L)
+            if Lc is not None:
+                L = Lc
+            L_in = L
             flags = set()
             for st, o in L["paths"]:
                 for e in st.effects:
@@ -632,7 +712,7 @@ def run(ctx, rep):
                 # re-assigning the unchanged state is no state change
                 L = dict(L)
                 L["paths"] = []
-                for st, o in sy.loops[sy.loop_order[0]]["paths"]:
+                for st, o in L_in["paths"]:
                     st2 = st.copy()
                     st2.effects = tuple(e for e in st.effects if not (e[0] == "assign" and e[1] == ("place", flag, ()) and e[2] == lv))
                     L["paths"].append((st2, o))
